@@ -108,7 +108,9 @@ SHARE = {
     'C01': [('C06.2', 'inc/exc are table operations of the statement (masking / filtering returns a new rectangular table)'),
             ('C06.9', 'keyword criteria of inc/exc select rows by the value given, whatever its truth value'),
             ('C06.4', 'a filter that leaves no row still returns a table with all its columns'),
-            ('C18.3', 'derived columns, do() and callable filters are evaluated row by row with the cells their parameters name: positional AND keyword-only (getargs)')],
+            ('C18.3', 'derived columns, do() and callable filters are evaluated row by row with the cells their parameters name: positional AND keyword-only (getargs)'),
+            ('C06.1', 'successive filters of inc() each look at the rows that are left: the mask is built from the filtered table')],
+    'C15': [('C16.9', 'tree_get / tree_getitem / _tree_setitem walk a key path with a cursor: the next key is looked for in the branch reached so far')],
     'C02': [('C07.2', 'the merge walks the keys with cmp: it must be antisymmetric'), ('C07.3', 'int/float and NaN keys are equal under cmp'),
             ('C07.10', 'keys are compared after as_primitive'), ('C07.11', 'identical unorderable keys (None) are equal')],
     'C03': [('C19.3', 'nested list/dict arguments are aligned member by member by the loop lifting'), ('C12.4', 'the as-of reindex first drops, with _nona, exactly the rows that are missing in every column')],
